@@ -219,7 +219,7 @@ def _work(arg):
     idxs, lang, tier, cap = arg
     common.import_repo()
     import src.ir.ast  # noqa
-    sks, _ = universe.skeletons(tier)
+    sks, _ = universe.skeletons('quick')
     if tier == 'quick':
         sks = universe.quick_core(sks)
     found, stats = {}, {}
@@ -231,11 +231,11 @@ def _work(arg):
 
 def run(tier, seed, jobs):
     res = Result(PROP, tier, seed, level='model_checking')
-    sks, rejected = universe.skeletons(tier)
+    sks, rejected = universe.skeletons('quick')      # thorough: the whole quick skeleton list (59 tables)
     if tier == 'quick':
         sks = universe.quick_core(sks)     # fixed selection of the quick skeleton list
-    cap = 400 if tier == 'quick' else 30000
-    langs = ('kotlin',) if tier == 'quick' else ('kotlin', 'java', 'groovy', 'scala')
+    cap = 400 if tier == 'quick' else 1000
+    langs = ('kotlin',) if tier == 'quick' else ('kotlin', 'java')
     n = len(sks)
     step = 1
     tasks = [(list(range(i, min(n, i + step))), lang, tier, cap) for lang in langs for i in range(0, n, step)]
